@@ -3,11 +3,15 @@
 import glob, json, os
 V = os.path.dirname(os.path.dirname(os.path.abspath(__file__)))
 rows = []
+benign = []
 for d in sorted(glob.glob(os.path.join(V, 'seeded', '*'))):
     if not os.path.exists(os.path.join(d, 'meta.json')):
         continue
     m = json.load(open(os.path.join(d, 'meta.json')))
     hist = json.load(open(os.path.join(d, 'result.json'))) if os.path.exists(os.path.join(d, 'result.json')) else []
+    if 'kind' in m:
+        benign.append((m, hist))
+        continue
     rows.append((m, hist))
 out = ['# Seeded property-breaking changes and what catches them', '',
        'Every entry is a change to GiulioRossetti/dynetx kept under `seeded/<id>/` (`patch.diff`, `demo.py`, `meta.json`, `result.json`).',
@@ -29,6 +33,22 @@ for m, hist in rows:
     green = hist[-1]['suite_green'] if hist else '-'
     out.append('| %s | %s | %s | %s | %s | %s | %s | %s |' % (m['id'], m['property'], 'sub-agent' if 'sub-agent' in m['origin'] else 'self', m['what'].replace('|', '\\|'),
                                                          m['needs'].replace('|', '\\|'), green, first, now))
-out += ['', 'Changes whose first run was **none** led to a strengthening of the named check (see DESIGN.md §10).', '']
+out += ['', 'Changes whose first run was **none** led to a strengthening of the named check, or are listed in DESIGN.md §10 as outside the bounds.', '',
+        '## Behaviour-preserving refactorings (must stay silent)', '',
+        'Produced by independent sub-agents who were asked for internal changes that keep every public result identical (each comes with a',
+        'differential script `equiv.py` whose digest is the same with and without the change). `tools/benign.py seeded/<id>` applies one, runs the suite',
+        'and the listed checks and requires exit 0 without a VIOLATION line from every one of them.', '',
+        '| id | what | suite green | checks run | first run: alarms | now: alarms |', '|---|---|---|---|---|---|']
+for m, hist in benign:
+    def loud(r):
+        return ', '.join(c for c, i in r['checks'].items() if not i['silent']) or 'none'
+    latest = {}
+    for r in hist:
+        for c, i in r['checks'].items():
+            latest[c] = i['silent']
+    out.append('| %s | %s | %s | %s | %s | %s |' % (m['id'], m['what'].replace('|', '\\|'), hist[-1].get('suite_green') if hist else '-',
+                                                 ', '.join(sorted(latest)), loud(hist[0]) if hist else '-',
+                                                 ', '.join(c for c, ok in latest.items() if not ok) or 'none'))
+out += ['']
 open(os.path.join(V, 'MUTATIONS.md'), 'w').write('\n'.join(out))
 print(len(rows), 'entries')
